@@ -283,4 +283,33 @@ theorem rename_directory_exact (fs : Fs) (hinv : Inv fs) (frm to : Bytes) (pf : 
         rw [h1]
         exact moveTree_get_tree fs hinv.1 pf pt .dir hm.src hm.srcne hm.notin hm.leaf hm.dstne hm.parent hm.names q
 
+
+theorem purgeUp_noNew : ∀ (n : Nat) (fs : Fs) (i : Bytes), NoNew fs (purgeUp n fs i) := by
+  intro n
+  induction n with
+  | zero => intro fs _; exact NoNew.refl fs
+  | succ n ih =>
+    intro fs i
+    simp only [purgeUp]
+    by_cases hi : i = [46]
+    · rw [if_pos hi]; exact NoNew.refl fs
+    · rw [if_neg hi]
+      have := sysRmdir_noNew fs i
+      cases hr : sysRmdir fs i with
+      | mk fs' r => rw [hr] at this; cases r with
+        | ok _ => exact this.trans (ih fs' _)
+        | error _ => exact this
+
+theorem dirPurge_spec (fs : Fs) (path : Bytes) (recursive : Bool) :
+    (dirPurge fs path recursive).2 = (dirUnlinkTop fs path recursive).2 ∧ NoNew fs (dirPurge fs path recursive).1 := by
+  unfold dirPurge
+  have h := dirUnlink_noNew (maxDepth fs + 2) recursive fs path
+  unfold dirUnlinkTop
+  cases hr : dirUnlink (maxDepth fs + 2) recursive fs path with
+  | mk fs' ok =>
+    rw [hr] at h
+    cases ok with
+    | false => exact ⟨rfl, h⟩
+    | true => exact ⟨rfl, h.trans (purgeUp_noNew _ fs' _)⟩
+
 end Nstd.Path
